@@ -6,8 +6,8 @@
 set -u
 ID=$1; PROP=$2; SRCDIR=$3; KIND=${4:-c}
 OUT=/verif/seeded/$ID; mkdir -p $OUT
-cp $SRCDIR/patch.diff $OUT/patch.diff; cp $SRCDIR/notes.txt $OUT/notes.txt 2>/dev/null
-for f in demo.c demo.cpp; do [ -f $SRCDIR/$f ] && cp $SRCDIR/$f $OUT/$f; done
+[ "$SRCDIR" != "$OUT" ] && { cp $SRCDIR/patch.diff $OUT/patch.diff; cp $SRCDIR/notes.txt $OUT/notes.txt 2>/dev/null; }
+for f in demo.c demo.cpp demo.sh demo_body.h demo_c.c; do [ -f $SRCDIR/$f ] && [ "$SRCDIR" != "$OUT" ] && cp $SRCDIR/$f $OUT/$f; done
 WT=$(mktemp -d /tmp/seedwt.XXXXXX); rmdir $WT
 git -C /repo worktree add -q --detach $WT HEAD || exit 2
 trap 'git -C /repo worktree remove --force $WT >/dev/null 2>&1' EXIT
@@ -19,15 +19,22 @@ builddemo () {  # $1 = source tree, $2 = output exe
   elif [ "$KIND" = cont ]; then
     gcc -g -w -I$S -I$D $OUT/demo.c $S/allocate.c $S/hashtab.c $S/objstack.c $S/vlobject.c -o $2
   else
-    gcc -g -w -I$S -I$D $OUT/demo.c $S/yaep.c $S/allocate.c $S/hashtab.c $S/objstack.c $S/vlobject.c -o $2
+    gcc -g -w -DYAEP_VERIF -I$S -I$D $OUT/demo.c $S/yaep.c $S/allocate.c $S/hashtab.c $S/objstack.c $S/vlobject.c -o $2
   fi
 }
 mkdir -p $WT/seedtmp
+if [ -f $OUT/demo.sh ]; then   # the demo is a script working on the tree it lives in (e.g. C vs C++ transcripts)
+  mkdir -p $WT/seed; cp $OUT/demo.sh $OUT/demo*.c* $OUT/demo*.h $WT/seed/ 2>/dev/null; chmod +x $WT/seed/demo.sh
+  ( cd $WT && timeout 300 seed/demo.sh > seedtmp/demo0.out 2>&1 ); D0=$?
+  ( cd $WT && git apply $OUT/patch.diff ) || { echo "patch does not apply"; exit 2; }
+  ( cd $WT && timeout 300 seed/demo.sh > seedtmp/demo1.out 2>&1 ); D1=$?
+else
 builddemo $WT $WT/seedtmp/demo0 || { echo "demo does not build on the unchanged tree"; exit 2; }
 ( cd $WT/seedtmp && timeout 120 ./demo0 >demo0.out 2>&1 ); D0=$?
 ( cd $WT && git apply $OUT/patch.diff ) || { echo "patch does not apply"; exit 2; }
 builddemo $WT $WT/seedtmp/demo1 || { echo "demo does not build with the change"; exit 2; }
 ( cd $WT/seedtmp && timeout 120 ./demo1 >demo1.out 2>&1 ); D1=$?
+fi
 SUITE=$(/verif/bin/baseline_off.sh $WT 2>&1 | tail -1)
 echo "demo unchanged exit=$D0, demo changed exit=$D1, suite: $SUITE"
 # run the check against the changed tree: same sources as "git -C /repo apply" would give, but in
